@@ -1,54 +1,100 @@
 from common import LEAN_TB
 
-CFG = {'lean_modules': ['ObiVerif.Props.C03', 'ObiVerif.Props.C03S'],
+CFG = {'lean_modules': ['ObiVerif.Props.C03', 'ObiVerif.Props.C03S', 'ObiVerif.Props.C03P'],
  'gen': False,
  'thorough_seeds': 8,
  'rule': 'cases = (combinator, parameters, input streams as arrival-ordered lists of numbered batches): random partitions of 0..40 records into 0..6 batches '
          '(sizes >= 0) in a random arrival order, 1..8 workers, empty first/middle streams for concat; worker-stage cases: per-record workers of fan-out 0..20 '
          '(constant or varying inside a batch, optionally failing records, breakOnError on/off) on batches of 0..4 (thorough: 1..12) records through '
-         'SeqToSliceWorker / SeqToSliceConditionalWorker alone and through MakeIWorker / MakeIConditionalWorker / MakeISliceWorker / ChainWorkers (2..3 stages) with '
-         '1..8 goroutines, every fan-out 0..20 x every batch size systematically; random pipelines of 3..4 stages; histories with a gap or a duplicated number '
-         '(outside the contract: explicit outcomes in the statistics); every arrival permutation of n<=5 batches in the thorough tier; '
-         'non-trivial = distinct well-formed case (not bad-op)',
+         'SeqToSliceWorker / SeqToSliceConditionalWorker alone and through MakeIWorker / MakeIConditionalWorker / MakeISliceWorker / ChainWorkers (2..3 '
+         'stages) with 1..8 goroutines, every fan-out 0..20 x every batch size systematically; random pipelines of 3..4 stages; histories with a gap or a '
+         'duplicated number (outside the contract: explicit outcomes in the statistics); every arrival permutation of n<=5 batches in the thorough tier; '
+         'second/third round: DivideOn with the second output never consumed (divideabs: explicit outcome hang as soon as that output gets a batch) or '
+         'consumed late and slowly (divideslow); nil worker / nil condition branches of the adapters (adaptnil, 7 variants); chains of 5..6 combinators with '
+         '1..16 workers and a fast / slow / bursty consumer (pipec); streams of 2*10^4 (quick) / 10^5 (thorough) records through 5..6 stages (big); the real '
+         'obiuniq chain in memory and on disk on streams holding empty batches (uniq, uniqdisk); instrumented SortBatches runs whose event log is replayed on '
+         'the transition system (trace); every multi-input / multi-output combinator (Distribute with a slow client of the news channel, Pool, Concat, PairTo, '
+         'PairedWith, CopyTee, DivideOn, IFragments, IMergeSequenceBatch) with slow / bursty / late consumers (mslow); the combinators of /repo 01cfd50 called '
+         'on an iterator the caller keeps using, paired or not (keepiter); a structural check of the sources of pkg/obiiter (srccheck: no goroutine closure '
+         'assigns the receiver / a parameter / a result of the method that starts it); thorough tier, first seed: 13 cases replayed through a `go build -race` '
+         'build of the harness (race); non-trivial = distinct well-formed case (not bad-op)',
  'technique': 'Lean 4 theorems on functional models of the obiiter combinators for every batch partition and arrival permutation, a verbatim model of the '
-              'growth loop of the record-to-slice adapters, and a small-step transition system of the goroutines/channels of a worker stage + SortBatches '
-              '(safety invariant, deadlock freedom, ranking function) + differential correspondence with the real combinators driven in forced arrival '
-              'orders + exactly-once/in-order oracle with independent naive references',
- 'level_text': 'Each combinator (SortBatches, Rebatch, FilterEmpty, Concat, DivideOn, FilterOn, MakeISliceWorker, Distribute, PairTo, Pool, IBatchOver, and now '
-               'MakeIWorker, MakeIConditionalWorker, ChainWorkers with the adapters SeqToSliceWorker / SeqToSliceConditionalWorker, IFragments, '
+              'growth loop of the record-to-slice adapters, and three small-step transition systems of the goroutines/channels — worker stage + SortBatches '
+              '(Model/ReseqSteps), the generic single-loop stage instantiated with Rebatch, FilterEmpty, DivideOn, Distribute, CopyTee, Concat, PairTo, '
+              'CompleteFileIterator and the one-push stages (Model/LoopSteps, LoopMachines), and Pool (Model/PoolSteps) — each with safety invariant, deadlock '
+              'freedom, ranking function and delivery theorem + differential correspondence with the real combinators driven in forced arrival orders and '
+              'consumer paces + exactly-once/in-order oracle with independent naive references + replay of instrumented SortBatches runs on the transition '
+              'system + Go race detector (thorough)',
+ 'level_text': 'Each combinator (SortBatches, Rebatch, FilterEmpty, Concat, DivideOn, FilterOn, MakeISliceWorker, Distribute, PairTo, Pool, IBatchOver, and '
+               'now MakeIWorker, MakeIConditionalWorker, ChainWorkers with the adapters SeqToSliceWorker / SeqToSliceConditionalWorker, IFragments, '
                'IMergeSequenceBatch, LimitMemory/Speed, Load/Count/CompleteFileIterator, CopyTee, PairedWith) is transcribed as a function on arrival-ordered '
                'batch lists; the theorems of Props/C03.lean state, for every partition into batches (empty ones included) and every arrival permutation, that '
-               'the output is numbered 0,1,2,... and carries exactly the records it must, in input order. New in this round: (12) the output-slice growth loop of '
-               'the adapters is modelled cell by cell (len=cap slice, write index, slices.Grow with ANY capacity function g that gives a full non-empty slice more '
-               'room) and proved equal to flatMap for every fan-out >= 0 and batch size, with breakOnError / failing records / the condition '
+               'the output is numbered 0,1,2,... and carries exactly the records it must, in input order. New in this round: (12) the output-slice growth loop '
+               'of the adapters is modelled cell by cell (len=cap slice, write index, slices.Grow with ANY capacity function g that gives a full non-empty '
+               'slice more room) and proved equal to flatMap for every fan-out >= 0 and batch size, with breakOnError / failing records / the condition '
                '(seqToSlice_keeps_all, seqToSlice_flatMap, seqToSlice_breakOnError, seqToSliceCond_spec, chainWorkers_spec = composition, iWorker_spec, '
-               'iWorker_breakOnError, iCondWorker_spec); (13) "always terminates": Model/ReseqSteps.lean is a transition system (producer, N workers sharing the '
-               'input channel, SortBatches with its received map and next counter, the three WaitAndClose closers, consumer; channel capacity cap >= 0 with '
-               'direct hand-off, cap = 0 being the unbuffered channels of the code) with reseqStage_safety (each batch at exactly one place in every reachable '
-               'state, sent prefix = 0..next-1), reseqStage_progress (a non-final state always has an enabled step; every step decreases rank) and '
+               'iWorker_breakOnError, iCondWorker_spec); (13) "always terminates": Model/ReseqSteps.lean is a transition system (producer, N workers sharing '
+               'the input channel, SortBatches with its received map and next counter, the three WaitAndClose closers, consumer; channel capacity cap >= 0 '
+               'with direct hand-off, cap = 0 being the unbuffered channels of the code) with reseqStage_safety (each batch at exactly one place in every '
+               'reachable state, sent prefix = 0..next-1), reseqStage_progress (a non-final state always has an enabled step; every step decreases rank) and '
                'reseqStage_terminates_delivers (every execution has <= 8n+N+4 steps, a stuck execution is final, every final state has delivered 0..n-1 in '
                'order with nothing left anywhere, and this equals Iter.sortBatches / Reseq.run applied to the order in which the sorter received the batches) '
                '- for every N >= 1, cap >= 0, source order and scheduling; (14) fragments_spec, mergeBatches_spec, passThrough_spec, load_spec, load_perm, '
                'pairedWith_aligned. The transcription is tied to the real goroutine-based code by pushing the same arrival histories through real iterators '
-               'and comparing the delivered (number, ids) lists; an oracle checks exactly-once/in-order/numbering directly on the real output.',
- 'level_note': "Trusted: Lean kernel; the transcriptions (Model/Iter.lean, IterWorker.lean, IterMore.lean, ReseqSteps.lean). Partial: the small-step model covers "
-               "ONE stage shape (source -> N workers -> SortBatches -> consumer); the other combinators' goroutines (Rebatch, Concat, Pool, DivideOn, Distribute, "
-               "PairTo) are single producer loops over the same Push/Next/Done/WaitAndClose protocol and are exercised under a 5 s watchdog only; the ~1 ms polling "
-               "loop of WaitAndClose and the pushBack flag are not modelled (WaitAndClose = 'all Done and channel empty -> close'). The transition system is a "
-               "Prop-level model: it is not executed against the code (its big-step result is proved equal to the executable Reseq model, which is). "
-               "SeqToSliceConditionalWorker is modelled as the code is: records that do not satisfy the condition are NOT delivered (no command uses "
-               "MakeIConditionalWorker). IMergeSequenceBatch on an empty group panics inside a library goroutine (Merge indexes sequences[0]): explicit outcome of "
-               "the model (mergeBatches_empty_group), recorded but not executed by the harness; groups come from the obiuniq chunker and are never empty. "
-               "The geometry of the fragments (IFragments cut) is C11's subject: here only that each record gives >= 1 fragment and that the stage keeps "
-               "numbering/order; the cut itself is compared with an independent reference in the harness. A nil worker / nil condition of the adapters "
-               "(pass-through branches) is not modelled. Inputs outside the order contract (gap / duplicate number): model and code agree (SortBatches silently "
-               "drops everything from the first missing number on; a duplicate replaces or is dropped) - explicit statistics, not a property claim.",
- 'trusted_base': LEAN_TB + ['Go channels/WaitGroup semantics (runtime) as rendered by the Step relation of Model/ReseqSteps.lean',
-                            'slices.Grow(s, cap(s)) gives a full non-empty slice strictly more room (hypothesis Grows g)',
-                            'obiseq.BioSequence identity carried by the id string'],
- 'modelled': 'pkg/obiiter batchiterator.go (SortBatches, Concat, Pool, Rebatch, FilterEmpty, DivideOn, FilterOn, IBatchOver, Load, Count, CompleteFileIterator; '
-             'Push/Next/Done/WaitAndClose/Split as a transition system), workers.go (MakeISliceWorker, MakeIWorker, MakeIConditionalWorker), distribute.go (Distribute), '
-             'paired.go (PairTo, PairedWith), fragment.go (IFragments), merge.go (IMergeSequenceBatch), pipe.go (CopyTee), limitmemory.go, speed.go (pass-through); '
-             'pkg/obiseq worker.go (SeqToSliceWorker, SeqToSliceConditionalWorker, ChainWorkers)',
- 'assumptions': ['each upstream batch number is pushed once (Contract)', 'PairTo is used on streams with the same number of records',
-                 'IMergeSequenceBatch receives non-empty groups', 'at least one worker goroutine (N >= 1)']}
+               'and comparing the delivered (number, ids) lists; an oracle checks exactly-once/in-order/numbering directly on the real output. Second and '
+               'third rounds (Props/C03S.lean, Props/C03P.lean): (15) loop_stage_correct — ONE proof for the generic single-loop stage (a loop goroutine '
+               'between nin inputs and nout outputs, producers, closers, consumers, lazily opened outputs announced on a news channel, channels of any '
+               'capacity, cap = 0 being the code): safety (pushes done so far ++ big-step run of the loop on what is still upstream = big-step run from the '
+               'start; what was pushed on j = delivered j ++ channel j), every step decreases rank, no deadlock when every output is consumed, every ended '
+               'execution has delivered the big-step pushes in order; instantiated: rebatch_stage (delivered = Iter.rebatch), filterEmpty_stage, divide_stage, '
+               'distribute_stage (the loop never pushes on an output it has not announced), tee_stage, map_complete_stage, concat_zip_stage (Concat of any '
+               'number of inputs, the zip loop of PairTo with its log.Fatalf state); loop_deterministic; divide_absent_consumer_blocks and '
+               'absent_consumer_blocks_every_output: with unbuffered channels an output nobody consumes blocks ALL outputs for ever (same outcome `hang` shown '
+               'on the real DivideOn by the divideabs cases; every caller in /repo consumes every output); (16) pool_stage_correct: Pool with N goroutines '
+               'sharing the counter: every numbered batch at exactly one place and the numbered batches = Iter.pool of the numbering order, no deadlock, <= '
+               '3n+N+1 steps, every ended execution has delivered numbers 0..n-1 each once and exactly the records of all inputs; poolRun_is_execution: the '
+               'executable round-robin run the driver compares with Iter.pool is an execution of the relation; (17) adapters_nil_branches, '
+               'chainWorkers_nil_branches: the nil worker / nil condition branches of SeqToSliceWorker / SeqToSliceConditionalWorker / ChainWorkers (tied by '
+               'the adaptnil cases).',
+ 'level_note': 'Trusted: Lean kernel; the transcriptions (Model/Iter.lean, IterWorker.lean, IterMore.lean, ReseqSteps.lean, LoopSteps.lean, LoopMachines.lean, '
+               'PoolSteps.lean, ReseqTrace.lean). Proved for all inputs / schedulings / capacities: everything listed in level_text. Partial / tied only: (a) '
+               'the transition systems are Prop-level models of the goroutines; they are tied to the code three ways, none of which is a proof about Go: the '
+               'big-step results are proved equal to the executable functional models that the harness compares with the real combinators (divide / distribute '
+               '/ pool also run their machine in the driver: `machine-differs` on any difference); instrumented runs of the real SortBatches (harness-side '
+               'pushers and consumer log b/e/d/q/x events around the real channel operations; SortBatches itself cannot be instrumented add-only) are replayed '
+               'by Model/ReseqTrace.check on the model state with the very functions the Step relation uses — the replay function itself is NOT proved sound '
+               "w.r.t. Step (trusted checker); consumers of every pace (fast / slow / bursty / late / absent) are sampled, not enumerated. (b) Pool's model "
+               'folds each input (producer + channel) into the list its goroutine reads; the per-input monotonicity of the new numbers is an oracle of the '
+               'harness (pool.stream-order), not a theorem. (c) FilterOn / FilterAnd = worker stage (N Split() clones, Props/C03 section 13 shape) followed by '
+               'Rebatch (rebatch_stage): the composition of two proved stages is not itself a transition system. (d) the ~1 ms polling loop of WaitAndClose '
+               "and the pushBack flag are not modelled (WaitAndClose = 'all Done and channel empty -> close'). (e) SeqToSliceConditionalWorker is modelled as "
+               'the code is: records that do not satisfy the condition are NOT delivered (no command uses MakeIConditionalWorker). (f) IMergeSequenceBatch on '
+               'an empty group panics inside a library goroutine (Merge indexes sequences[0]): explicit outcome of the model (mergeBatches_empty_group). '
+               'Reachability examined in the third round: the only caller is obichunk.IUniqueSequence (obiuniq, obicleandb); in memory ISequenceChunk pushes a '
+               'chunk only if len > 0 and Distribute creates a class only for a record; ISequenceSubChunk forwards batches of length <= 1 unchanged and builds '
+               'groups of >= 1 record, the recursion pushes only batches of length >= 2; on disk every chunk file is created for a record and every reader '
+               'rejects or drops records without sequence (checked on the binaries: FASTA drops, EMBL / GenBank stop with an error), so a chunk re-read from '
+               'disk is never empty: not reachable from a command; the uniq / uniqdisk cases drive the real chain on streams holding empty batches (oracle: no '
+               'empty batch, one variant per sequence, counts). (g) /repo 01cfd50 (`iterator = iterator.SortBatches()` written by the goroutine while the '
+               "method reads iterator.IsPaired()): the receiver is a value, so the caller's variable cannot change and both values carry the same flag — the "
+               'regression changes no delivered record; it is caught structurally (srccheck, every run) and by the race detector (race cases, thorough tier '
+               "and change-directed escalation); keepiter checks what the caller can observe. (h) The geometry of the fragments (IFragments cut) is C11's "
+               'subject. Inputs outside the order contract (gap / duplicate number): model and code agree (SortBatches silently drops everything from the '
+               'first missing number on; a duplicate replaces or is dropped) - explicit statistics, not a property claim.',
+ 'trusted_base': LEAN_TB + [
+                  'Go channels/WaitGroup/atomic counter semantics (runtime) as rendered by the Step relations of Model/ReseqSteps.lean, LoopSteps.lean, '
+                  'PoolSteps.lean',
+                  'slices.Grow(s, cap(s)) gives a full non-empty slice strictly more room (hypothesis Grows g)',
+                  'obiseq.BioSequence identity carried by the id string',
+                  'the trace replay function Model/ReseqTrace.check (executable, not proved sound w.r.t. Step)',
+                  'Go race detector and go/parser (harness side)'],
+ 'modelled': 'pkg/obiiter batchiterator.go (SortBatches, Concat, Pool, Rebatch, FilterEmpty, DivideOn, FilterOn, IBatchOver, Load, Count, '
+             'CompleteFileIterator; Push/Next/Done/WaitAndClose/Split as transition systems: worker stage + SortBatches, single-loop stage, Pool), workers.go '
+             '(MakeISliceWorker, MakeIWorker, MakeIConditionalWorker), distribute.go (Distribute), paired.go (PairTo, PairedWith), fragment.go (IFragments), '
+             'merge.go (IMergeSequenceBatch), pipe.go (CopyTee), limitmemory.go, speed.go (pass-through); pkg/obiseq worker.go (SeqToSliceWorker, '
+             'SeqToSliceConditionalWorker, ChainWorkers)',
+ 'assumptions': ['each upstream batch number is pushed once (Contract)',
+                 'PairTo is used on streams with the same number of records',
+                 'IMergeSequenceBatch receives non-empty groups (shown unreachable otherwise, level_note f)',
+                 'at least one worker goroutine (N >= 1) in a worker stage',
+                 'every output of a multi-output combinator is consumed (necessary: absent_consumer_blocks_every_output)']}
